@@ -35,7 +35,11 @@ let strip_quiet quiet op =
   else (quiet := false; op)
 
 (* ---- single-valued maps: a step function over 'st plus renderers ---- *)
-let run_smap (type st) (step : st -> coq_Z mop -> st * coq_Z mout) (init : st)
+(* observation: ret/len/keys/vals/dump/nil/align/backward.  nil = "" : every container builds its
+   Keys()/Values() result with make(..., 0, n), never nil (hashmap.go, linkedmap.go, multi_map.go,
+   map.go, red_black_tree.go KeyValues, set.go); align = "ok" where the model proves that Keys[i] and
+   Values[i] belong together (linked maps, tree-backed maps), "" elsewhere *)
+let run_smap (type st) ?(aligned = false) (step : st -> coq_Z mop -> st * coq_Z mout) (init : st)
     (dump : (st -> string) option) (backward : (st -> string) option) ops =
   let st = ref init in
   let out = ref [] in
@@ -46,8 +50,8 @@ let run_smap (type st) (step : st -> coq_Z mop -> st * coq_Z mout) (init : st)
     let keys = match call MKeys with RKeys l -> zs ";" l | ROutOfFuel -> "outoffuel" | _ -> "?" in
     let vals = match call MValues with RVals l -> zs ";" l | ROutOfFuel -> "outoffuel" | _ -> "?" in
     let d = match dump with Some f -> f !st | None -> "" in
-    let b = match backward with Some f -> "/" ^ f !st | None -> "" in
-    ret ^ "/" ^ len ^ "/" ^ keys ^ "/" ^ vals ^ "/" ^ d ^ b in
+    let b = match backward with Some f -> f !st | None -> "" in
+    ret ^ "/" ^ len ^ "/" ^ keys ^ "/" ^ vals ^ "/" ^ d ^ "/" ^ "/" ^ (if aligned then "ok" else "") ^ "/" ^ b in
   (try
     List.iter (fun op ->
       let op = strip_quiet quiet op in
@@ -84,7 +88,7 @@ let backward_keys (s : (coq_Z, 'm) lstate) =
   zs ";" (go (s.heap coq_TAIL).lprev (int_of_nat s.nalloc + 2) [])
 
 (* ---- multi maps ---- *)
-let run_mmap (type st) (step : st -> coq_Z mmop -> st * coq_Z mmout) (init : st)
+let run_mmap (type st) ?(aligned = false) (step : st -> coq_Z mmop -> st * coq_Z mmout) (init : st)
     (dump : (st -> string) option) ops =
   let st = ref init in
   let out = ref [] in
@@ -95,7 +99,7 @@ let run_mmap (type st) (step : st -> coq_Z mmop -> st * coq_Z mmout) (init : st)
     let keys = match call MMKeys with MRKeys l -> zs ";" l | _ -> "?" in
     let vals = match call MMValues with MRVals l -> String.concat ";" (List.map inner l) | _ -> "?" in
     let d = match dump with Some f -> f !st | None -> "" in
-    ret ^ "/" ^ len ^ "/" ^ keys ^ "/" ^ vals ^ "/" ^ d in
+    ret ^ "/" ^ len ^ "/" ^ keys ^ "/" ^ vals ^ "/" ^ d ^ "/" ^ "/" ^ (if aligned then "ok" else "") ^ "/" in
   List.iter (fun op ->
     let op = strip_quiet quiet op in
     match split_on ':' op with
@@ -106,7 +110,7 @@ let run_mmap (type st) (step : st -> coq_Z mmop -> st * coq_Z mmout) (init : st)
        | _ -> out := "?" :: !out)
     | ["g"; k] ->
       (match call (MMGet (z_of_string k)) with
-       | MRFound (v, ok) -> out := obs (inner v ^ "," ^ b2s ok) :: !out
+       | MRFound (v, ok) -> out := obs ((if ok then "" else "~") ^ inner v ^ "," ^ b2s ok) :: !out   (* nil iff absent *)
        | _ -> out := "?" :: !out)
     | ["d"; k] ->
       (match call (MMDelete (z_of_string k)) with
@@ -130,7 +134,7 @@ let run_set ops =
     if !quiet then out := ret :: !out
     else
       let keys = match call SKeys with SRKeys l -> zs ";" l | _ -> "?" in
-      out := (ret ^ "/" ^ keys) :: !out) ops;
+      out := (ret ^ "/" ^ keys ^ "/") :: !out) ops;
   String.concat "|" (List.rev !out)
 
 let z0 = Z0
@@ -151,16 +155,16 @@ let run_history spec container code eq ops =
     | "hash" -> run_smap (hstep z0 codef eqf) hinit (Some (dump_tbl kv)) None ops
     | "lhm" ->
       let b = hash_backing Datatypes.O codef eqf in
-      run_smap (lstep z0 b) (linit z0 hinit)
+      run_smap ~aligned:true (lstep z0 b) (linit z0 hinit)
         (Some (fun s -> dump_tbl (fun (k, _) -> z_to_string k) s.lm)) (Some backward_keys) ops
     | "ltm" ->
       let b = abs_backing Datatypes.O eqf in
-      run_smap (lstep z0 b) (linit z0 []) None (Some backward_keys) ops
+      run_smap ~aligned:true (lstep z0 b) (linit z0 []) None (Some backward_keys) ops
     | "builtin" -> run_smap builtin_step [] None None ops
     | "mhm" ->
       let b = hash_backing [] codef eqf in
       run_mmap (mmstep b) hinit (Some (dump_tbl (fun (k, v) -> z_to_string k ^ ":" ^ inner v))) ops
-    | "mtm" -> run_mmap (mmstep (abs_backing [] eqf)) [] None ops
+    | "mtm" -> run_mmap ~aligned:true (mmstep (abs_backing [] eqf)) [] None ops
     | "set" -> run_set ops
     | _ -> "badcontainer"
 
